@@ -5,7 +5,6 @@ From V Require Import Base.Int Base.IntLemmas Base.IO Base.Utf8 Model.Scan Model
 From V Require Model.Date Model.Time.
 Import ListNotations.
 Open Scope Z_scope.
-Set Default Timeout 20.
 
 (** a date-time value of the case protocol, decoded as the harness does *)
 Definition value (y o secs frac off : Z) : val := VTup [VInt y; VInt o; VInt secs; VInt frac; VInt off].
@@ -87,7 +86,7 @@ Proof.
     revert Hfd. generalize (d :: ds). intros l. induction l as [|x l IH]; intros Hd; [constructor|].
     cbn [forallb] in Hd. apply andb_prop in Hd. destruct Hd as [Hx Hl]. cbn [map]. constructor; [unfold dig, is_dig in *; lia|exact (IH Hl)].
   - destruct (f_zone f) as [c|sg hh mm]; cbn [render_zone].
-    + repeat constructor; lia.
+    + match goal with h : wf_zone _ = true |- _ => cbn [wf_zone] in h end. repeat constructor; lia.
     + match goal with h : wf_zone _ = true |- _ => cbn [wf_zone] in h; unfold is2 in h end.
       repeat apply Forall_app_intro; try (apply two_ascii; lia); try (repeat constructor; lia).
       unfold render_sign. destruct (sg =? 0); [repeat constructor; lia|]. destruct (sg =? 1); [repeat constructor; lia|lia].
